@@ -143,7 +143,7 @@ def _temps_and_tuples(tree):
 def normalise(tree):
     """in place; returns the number of rewrites.  Order: temporaries and tuple assignments, append loops, private helpers
     (whose bodies are then already in normal form), and temporaries / tuples once more for what the inlining exposed"""
-    total = partials_to_defs(tree) + split_conditional_returns(tree) + split_on_shared_predicates(tree)
+    total = partials_to_defs(tree) + split_on_shared_predicates(tree) + split_conditional_returns(tree)
     ast.fix_missing_locations(tree)
     total += _temps_and_tuples(tree)
     n = append_loops_to_comprehensions(tree) + fuse_comprehensions(tree)
@@ -158,9 +158,60 @@ def normalise(tree):
 
 
 def split_conditional_returns(tree):
-    """`return X if c else Y`  ->  `if c: return X` / `else: return Y`: the exits of a function are statements, so that per-exit rules
-    (guards, tuple roles) see each case on its own and never a mixture of the two values"""
+    """conditional expressions are lifted to statement level: `return f(X if c else Y)` -> `if c: return f(X)` / `else: return f(Y)`, and the
+    same for assignments and expression statements, so that the cases of a function are branches of statements whichever way they were
+    written, and per-exit rules (guards, tuple roles, constructed algorithms) see each case on its own.  Not lifted: conditionals
+    inside lambdas, comprehensions, boolean operators (short-circuit) or another conditional's test; at most three per statement."""
     n = 0
+
+    def liftable(st):
+        """the first conditional expression of st that is evaluated unconditionally, or None"""
+        roots = []
+        if isinstance(st, ast.Return) and st.value is not None:
+            roots = [st.value]
+        elif isinstance(st, (ast.Assign, ast.AugAssign, ast.AnnAssign)) and getattr(st, "value", None) is not None:
+            roots = [st.value]
+        elif isinstance(st, ast.Expr):
+            roots = [st.value]
+        found = []
+
+        def walk(e):
+            if found or isinstance(e, (ast.Lambda, ast.ListComp, ast.SetComp, ast.DictComp, ast.GeneratorExp, ast.BoolOp, ast.NamedExpr, ast.Yield, ast.YieldFrom, ast.Await)):
+                return
+            if isinstance(e, ast.IfExp):
+                found.append(e)
+                return
+            if isinstance(e, ast.Compare) and len(e.ops) > 1:
+                return
+            for c in ast.iter_child_nodes(e):
+                if isinstance(c, (ast.expr, ast.keyword, ast.Starred)) or isinstance(c, ast.AST) and not isinstance(c, (ast.expr_context, ast.operator, ast.unaryop, ast.cmpop, ast.boolop)):
+                    walk(c)
+        for r in roots:
+            walk(r)
+        return found[0] if found else None
+
+    def replace(st, target, by):
+        class R(ast.NodeTransformer):
+            def visit_IfExp(self, node):
+                if node is target:
+                    return by
+                return self.generic_visit(node)
+        return R().visit(st)
+
+    def lift(st, budget):
+        e = liftable(st) if budget > 0 else None
+        if e is None:
+            return [st]
+        import copy
+        memo_t = {id(e): e}
+        st_true = copy.deepcopy(st, memo_t)  # the target node itself is shared so that it can be found in the copy
+        st_false = copy.deepcopy(st, {id(e): e})
+        a = replace(st_true, e, copy.deepcopy(e.body))
+        b = replace(st_false, e, copy.deepcopy(e.orelse))
+        new = ast.If(test=copy.deepcopy(e.test), body=lift(a, budget - 1), orelse=lift(b, budget - 1))
+        ast.copy_location(new, st)
+        return [new]
+
     for node in ast.walk(tree):
         for f in ("body", "orelse", "finalbody"):
             blk = getattr(node, f, None)
@@ -169,17 +220,14 @@ def split_conditional_returns(tree):
             i = 0
             while i < len(blk):
                 st = blk[i]
-                if isinstance(st, ast.Return) and isinstance(st.value, ast.IfExp):
-                    e = st.value
-                    new = ast.If(test=e.test, body=[ast.copy_location(ast.Return(value=e.body), st)], orelse=[ast.copy_location(ast.Return(value=e.orelse), st)])
-                    ast.copy_location(new, st)
-                    blk[i] = new
-                    n += 1
-                    continue  # the new if is visited by the outer walk (nested conditional returns)
+                if isinstance(st, (ast.Return, ast.Assign, ast.AugAssign, ast.AnnAssign, ast.Expr)) and liftable(st) is not None:
+                    new = lift(st, 3)
+                    if not (len(new) == 1 and new[0] is st):
+                        blk[i:i + 1] = new
+                        n += 1
                 i += 1
     if n:
-        # ast.walk snapshots children lazily; run again for returns created inside the new ifs
-        n += split_conditional_returns(tree)
+        ast.fix_missing_locations(tree)
     return n
 
 
@@ -238,14 +286,31 @@ def partials_to_defs(tree):
 
 class _Fold(ast.NodeTransformer):
     """conditionals on literal constants (what inlining a helper called with `flag=True` leaves behind) are resolved"""
-    def __init__(self):
+    def __init__(self, never_none=()):
         self.n = 0
+        self.never_none = set(never_none)
 
     def visit_UnaryOp(self, node):
         self.generic_visit(node)
         if isinstance(node.op, ast.Not) and isinstance(node.operand, ast.Constant) and isinstance(node.operand.value, bool):
             self.n += 1
             return ast.copy_location(ast.Constant(value=not node.operand.value), node)
+        return node
+
+    def visit_Compare(self, node):
+        self.generic_visit(node)
+        if len(node.ops) == 1 and isinstance(node.ops[0], (ast.Is, ast.IsNot)):
+            l, r = node.left, node.comparators[0]
+            for x, y in ((l, r), (r, l)):
+                if isinstance(y, ast.Constant) and y.value is None:
+                    known = None
+                    if isinstance(x, ast.Constant):
+                        known = x.value is None
+                    elif isinstance(x, ast.Name) and x.id in self.never_none:
+                        known = False  # a class / function / module of this module's namespace
+                    if known is not None:
+                        self.n += 1
+                        return ast.copy_location(ast.Constant(value=known if isinstance(node.ops[0], ast.Is) else not known), node)
         return node
 
     def visit_IfExp(self, node):
@@ -293,7 +358,19 @@ class _Fold(ast.NodeTransformer):
 
 
 def fold_constants(tree):
-    f = _Fold()
+    # module-level names bound by def / class / import only (never re-bound): they are never None
+    bound, rebound = set(), set()
+    for st in getattr(tree, "body", []):
+        if isinstance(st, (ast.FunctionDef, ast.AsyncFunctionDef, ast.ClassDef)):
+            bound.add(st.name)
+        elif isinstance(st, (ast.Import, ast.ImportFrom)):
+            bound |= {(al.asname or al.name).split(".")[0] for al in st.names}
+    for x in ast.walk(tree):
+        if isinstance(x, ast.Name) and isinstance(x.ctx, ast.Store):
+            rebound.add(x.id)
+        elif isinstance(x, ast.arg):
+            rebound.add(x.arg)
+    f = _Fold(bound - rebound)
     f.visit(tree)
     if f.n:
         ast.fix_missing_locations(tree)
@@ -635,15 +712,17 @@ def _inlinable_helpers(tree):
         # a function helper ends in `return <value>`; a procedure helper (only assertions / stores, no return) is inlined where it is
         # called as a statement
         is_proc = not any(isinstance(x, ast.Return) for s in body for x in ast.walk(s))
-        if not is_proc and (not isinstance(body[-1], ast.Return) or body[-1].value is None):
-            continue
-        if not all(isinstance(s, _SIMPLE_STMTS) for s in (body if is_proc else body[:-1])):
+        straight = (is_proc or (isinstance(body[-1], ast.Return) and body[-1].value is not None)) and all(isinstance(s, _SIMPLE_STMTS) for s in (body if is_proc else body[:-1]))
+        # a helper with branches (if / elif / early returns) is inlined only where it is called in tail position (`return helper(...)`):
+        # its returns become the caller's
+        branching = not straight and all(isinstance(x, _SIMPLE_STMTS + (ast.If, ast.Return)) for s in body for x in ast.walk(s) if isinstance(x, ast.stmt))
+        if not straight and not branching:
             continue
         if any(isinstance(x, (ast.FunctionDef, ast.Lambda, ast.Yield, ast.YieldFrom, ast.Await, ast.NamedExpr, ast.Global, ast.Nonlocal)) for s in body for x in ast.walk(s)):
             continue
         if any(isinstance(x, ast.Call) and isinstance(x.func, ast.Name) and x.func.id == st.name for s in body for x in ast.walk(s)):
             continue  # recursive
-        out[st.name] = (st, body)
+        out[st.name] = (st, body, branching)
     return out
 
 
@@ -719,7 +798,9 @@ def inline_helpers(tree):
 
     def expand(call, as_statement=False):
         """-> (prefix statements, expression) or None"""
-        fn, _ = helpers[call.func.id]
+        fn, _, _br = helpers[call.func.id]
+        if _br:
+            return None
         # the helper's body as it is now (calls to other helpers inside it may have been expanded in the meantime)
         body = [s_ for s_ in fn.body if not (isinstance(s_, ast.Expr) and isinstance(s_.value, ast.Constant))]
         is_proc = bool(body) and not any(isinstance(x, ast.Return) for s_ in body for x in ast.walk(s_))
@@ -762,10 +843,62 @@ def inline_helpers(tree):
             ast.fix_missing_locations(s)
         return pre + stmts, expr
 
+    def expand_tail(call):
+        """statements that replace `return <call>`: the helper's body with its parameters bound, or None"""
+        fn, _, _br = helpers[call.func.id]
+        body = [s_ for s_ in fn.body if not (isinstance(s_, ast.Expr) and isinstance(s_.value, ast.Constant))]
+        if not body or not all(isinstance(x, _SIMPLE_STMTS + (ast.If, ast.Return)) for s_ in body for x in ast.walk(s_) if isinstance(x, ast.stmt)):
+            return None
+        if any(isinstance(x, (ast.Lambda, ast.Yield, ast.YieldFrom, ast.Await, ast.NamedExpr)) for s_ in body for x in ast.walk(s_)):
+            return None
+        res = _bind(fn, call, counter[0] + 1)
+        if res is None:
+            return None
+        bound, star_pre = res
+        counter[0] += 1
+        tag = counter[0]
+        assigned = {t.id for s_ in body for t in ast.walk(s_) if isinstance(t, ast.Name) and isinstance(t.ctx, ast.Store)}
+        pre, mapping = list(star_pre), {}
+
+        def simple(e):
+            return isinstance(e, (ast.Name, ast.Constant)) or (isinstance(e, ast.Attribute) and simple(e.value))
+        for p_, e in bound.items():
+            if p_ in assigned or not simple(e):
+                fresh = f"_inl{tag}_{p_}"
+                pre.append(ast.Assign(targets=[ast.Name(id=fresh, ctx=ast.Store())], value=_copy(e), lineno=call.lineno))
+                mapping[p_] = fresh
+            else:
+                mapping[p_] = e
+        for v in assigned - set(bound):
+            mapping[v] = f"_inl{tag}_{v}"
+        sub = _Subst(mapping)
+        stmts = [sub.visit(_copy(s_)) for s_ in body]
+
+        def terminates(blk_):
+            if not blk_:
+                return False
+            last = blk_[-1]
+            return isinstance(last, (ast.Return, ast.Raise)) or (isinstance(last, ast.If) and terminates(last.body) and terminates(last.orelse))
+        if not terminates(stmts):
+            stmts.append(ast.Return(value=ast.Constant(value=None)))
+        for s_ in pre + stmts:
+            ast.copy_location(s_, call)
+            ast.fix_missing_locations(s_)
+        return pre + stmts
+
     def process_block(blk, owner_name):
         i = 0
         while i < len(blk):
             st = blk[i]
+            if isinstance(st, ast.Return) and isinstance(st.value, ast.Call) and isinstance(st.value.func, ast.Name) and st.value.func.id in helpers \
+                    and st.value.func.id != owner_name and helpers[st.value.func.id][2]:
+                new_ = expand_tail(st.value)
+                if new_ is not None:
+                    blk[i:i + 1] = new_
+                    total[0] += 1
+                    if total[0] > 500:
+                        return
+                    continue
             if isinstance(st, (ast.FunctionDef, ast.AsyncFunctionDef)):
                 process_block(st.body, st.name)
                 i += 1
